@@ -31,7 +31,7 @@ check('C13',
       'MultiHeadDotProductAttention(decode=True) stepwise == whole sequence under a '
       'causal mask (cache index, every step), with the float-saturation axiom '
       'exp(finfo.min) = 0.',
-      'Bidirectional/nnx.RNN over the real scan and the NNX decode cache are NOT '
+      '(Linen and NNX). Bidirectional/nnx.RNN over the real scan are NOT '
       'claimed; exp/sigmoid/tanh/sqrt uninterpreted (exp > 0 instantiated per '
       'application); floats as reals.',
       ENGC, 'DESIGN.md §4 C13, §9.5')
@@ -177,7 +177,7 @@ check('C13',
       'MultiHeadDotProductAttention(decode=True) stepwise == whole sequence under a '
       'causal mask (cache index, every step), with the float-saturation axiom '
       'exp(finfo.min) = 0.',
-      'Bidirectional/nnx.RNN over the real scan and the NNX decode cache are NOT '
+      '(Linen and NNX). Bidirectional/nnx.RNN over the real scan are NOT '
       'claimed; exp/sigmoid/tanh/sqrt uninterpreted (exp > 0 instantiated per '
       'application); floats as reals.',
       ENGC, 'DESIGN.md §4 C13, §9.5')
